@@ -91,10 +91,11 @@ def generate(seed: int, tier: str):
 
 
 # ------------------------------------------------------------------------------------------
-def _make_sim(schedule, hooks):
+def _make_sim(schedule, hooks, pct_horizon=4000):
     s = dict(schedule)
     mode = s.pop("mode", "prng")
     return Sim(
+        pct_horizon=pct_horizon,
         seed=s.get("seed", 0), mode=mode, workers=s.get("workers", 4), granularity=s.get("granularity", "line"),
         preempt_p=s.get("preempt_p", 0.05), policy=s.get("policy", "uniform"), pct_d=s.get("pct_d", 2),
         hot_boost=s.get("hot_boost", 0.0),
@@ -269,7 +270,8 @@ def execute(sc):
             fail_reads = {t: [k]}
         else:
             f8 = False
-    sim = _make_sim(sc["schedule"], hooks)
+    # PCT change points are drawn over the expected number of trace events (~40 per task, measured)
+    sim = _make_sim(sc["schedule"], hooks, pct_horizon=max(200, 40 * ref_sim.stats["tasks"]))
     sim_error = None
     try:
         sim_world, out = _execute_ops(sc, w, sim, knobs, fail_reads=fail_reads)
